@@ -1,5 +1,8 @@
-"""Recompute one oracle answer in a genuinely fresh interpreter (cross-validation of the pristine-fork oracle).
-usage: fresh_oracle.py <query.json>   (query: {problem, fc, name});  prints the digest of the answer."""
+"""Recompute oracle answers in a genuinely fresh interpreter (cross-validation of the pristine-fork oracle and
+detection of hash-seed dependence).
+usage: fresh_oracle.py <query.json>            one query {problem, fc, name}: prints the digest of the answer
+       fresh_oracle.py --batch <queries.json>  list of queries: each answered in its own fork of this (never-executing)
+                                               interpreter; prints a JSON list of digests"""
 import json
 import os
 import sys
@@ -13,8 +16,23 @@ sys.path.insert(0, os.path.dirname(HERE))
 sys.path.insert(0, os.environ.get("VERIF_REPO", "/repo"))
 warnings.filterwarnings("ignore")
 from sim import prng  # noqa: E402
+from sim.node import fork_call  # noqa: E402
 from worlds.c11 import service_answer  # noqa: E402
 
-q = json.load(open(sys.argv[1]))
-a = service_answer(q["problem"], q["fc"], q["name"], False)
-print(prng.digest(a.get("json") if a["kind"] == "ok" else [a["type"]]))
+
+def answer(q):
+    a = service_answer(q["problem"], q["fc"], q["name"], False)
+    return prng.digest(a.get("json") if a["kind"] == "ok" else [a["type"]])
+
+
+if sys.argv[1] == "--batch":
+    qs = json.load(open(sys.argv[2]))
+    out = []
+    for q in qs:
+        try:
+            out.append(fork_call(lambda q=q: answer(q), timeout=300))
+        except Exception as e:
+            out.append("error:" + str(e)[:80])
+    print(json.dumps(out))
+else:
+    print(answer(json.load(open(sys.argv[1]))))
